@@ -295,6 +295,31 @@ def gen_id(g, concat=None):
         def separate():
             return [g.arrange(g.perm(frame + s), units=0.05) for s in slots]
 
+        if rng.random() < 0.25:
+            # two concatenated axes in one expression (block matrices): the pieces pair with the tensors in row-major order,
+            # the leftmost concatenation varying slowest
+            slots2 = []
+            for _ in range(2):
+                s = g.pick_axes(1, exclude=used, maxprod=5)
+                used |= {a.name for a in s}
+                slots2.append(s)
+            slots = slots[:2]
+            order = rng.random() < 0.5
+
+            def concatenated():                                     # noqa: F811
+                fr = g.perm(frame)
+                cats = [Cat([slot_dim(s) for s in slots]), Cat([slot_dim(s) for s in slots2])]
+                if not order:
+                    cats.reverse()
+                k = rng.randint(0, len(fr))
+                dims = [a.copy() for a in fr[:k]] + [cats[0]] + [a.copy() for a in fr[k:]]
+                dims.insert(rng.randint(dims.index(cats[0]) + 1, len(dims)), cats[1])
+                return [dims]
+
+            def separate():                                         # noqa: F811
+                first, second = (slots, slots2) if order else (slots2, slots)
+                return [g.arrange(g.perm(frame + s1 + s2), units=0.05) for s1 in first for s2 in second]
+
         mode = rng.choice(["cat->sep", "sep->cat", "cat->cat"])
         ins = concatenated() if mode.startswith("cat") else separate()
         outs = concatenated() if mode.endswith("cat") else separate()
@@ -471,8 +496,14 @@ def gen_index(g, update=False):
     Mt = [a for a in T if a.marked]
     Ut = [a for a in T if not a.marked]
     k = len(Mt)
+    same_name = k >= 2 and rng.random() < 0.2
+    if same_name:
+        Mt[1].size = Mt[0].size
     tdims = g.arrange(g.perm(T), units=0.05)
     Mt = [l for l in leaves(tdims) if l.marked]          # order of the bracketed axes in the expression
+    if same_name:
+        # a square target: the same name for two bracketed axes ("[n n]"); each still takes its own coordinate
+        Mt[1].name = Mt[0].name
     extra = g.pick_axes(rng.randint(0, 2), exclude={a.name for a in T}, maxprod=12, sizes=[1, 2, 3])
     vec = Ut + extra
     # split the k coordinates over coordinate tensors
